@@ -121,13 +121,18 @@ def dotted(node):
 
 
 def seedlike(node):
+    if isinstance(node, ast.Call) and dotted(node.func) in ("int", "abs") and len(node.args) == 1 and not node.keywords:
+        return seedlike(node.args[0])
     d = dotted(node)
     return d is not None and "seed" in d.split(".")[-1].lower()
 
 
 class FileScan:
-    def __init__(self, rel, text):
+    def __init__(self, rel, text, registry=None):
         self.rel = rel
+        self.registry = registry if registry is not None else {"repo": None, "scans": {}, "callees": {}}
+        self.msdm_imports = {}    # local name -> (module, original name) for `from msdm... import f`
+        self._scanned = None
         import warnings
         with warnings.catch_warnings():
             warnings.simplefilter("ignore")
@@ -186,6 +191,9 @@ class FileScan:
                         raise Unclassified("%s:%d: import form `%s` not handled" % (self.rel, n.lineno, src(n)))
             elif isinstance(n, ast.ImportFrom):
                 top = (n.module or "").split(".")[0]
+                if top == "msdm" and n.level == 0:
+                    for a in n.names:
+                        self.msdm_imports[a.asname or a.name] = (n.module, a.name)
                 if top in ("random", "secrets", "uuid") or (n.module or "").startswith(("numpy.random", "torch.random")):
                     raise Unclassified("%s:%d: import form `%s` not handled" % (self.rel, n.lineno, src(n)))
                 if top in ("numpy", "torch"):
@@ -287,6 +295,8 @@ class FileScan:
             return e.attr in self.gen_attrs
         if isinstance(e, ast.Call):
             d = dotted(e.func)
+            if d is not None and d in self.msdm_imports and SUSPICIOUS.search(d):
+                return True          # imported factory with a generator-like name: resolved (or failed closed) at the call
             return d is not None and d.split(".")[-1] in self.gen_funcs
         if isinstance(e, ast.IfExp):
             return self.is_genexpr(e.body) or self.is_genexpr(e.orelse)
@@ -446,7 +456,40 @@ class FileScan:
                         kinds |= self.helper_kinds(d2, depth - 1, seen)
         return kinds
 
+    def is_torch_global_generator(self, e, at):
+        """torch.manual_seed(..) / torch.random.manual_seed(..) RETURN the global default generator; torch.default_generator
+        is it; so is a local name assigned from either"""
+        d = (dotted(e.func) if isinstance(e, ast.Call) else dotted(e)) or ""
+        parts = d.split(".")
+        if parts and parts[0] in self.mod_torch and parts[-1] in ("manual_seed", "default_generator"):
+            return True
+        if isinstance(e, ast.Name):
+            f = self.func_of(at)
+            for x in ast.walk(f if f is not None else self.tree):
+                if isinstance(x, ast.Assign) and any(isinstance(t, ast.Name) and t.id == e.id for t in x.targets) \
+                        and not isinstance(x.value, ast.Name) and self.is_torch_global_generator(x.value, at):
+                    return True
+        return False
+
+    def torch_generator_kind(self, call):
+        """torch.Generator(..): takes no seed; private iff the name it is bound to gets  .manual_seed(<seed>)  in the same
+        function before any other use; .seed() / no seeding at all = operating-system entropy"""
+        st = self.stmt_of(call)
+        names = [src(t) for t in st.targets if isinstance(t, (ast.Name, ast.Attribute))] if isinstance(st, ast.Assign) else []
+        f = self.func_of(call)
+        if names and f is not None:
+            for x in ast.walk(f):
+                if isinstance(x, ast.Call) and isinstance(x.func, ast.Attribute) and x.func.attr == "manual_seed" \
+                        and src(x.func.value) in names and x.lineno >= call.lineno:
+                    if len(x.args) == 1 and (seedlike(x.args[0]) or isinstance(x.args[0], ast.Constant)):
+                        return "KPrivate"
+                    raise Unclassified("%s:%d: `%s`: seed expression not recognised" % (self.rel, x.lineno, src(x)))
+        return "KUnseeded"
+
     def seed_kind_of_construction(self, call):
+        d = (dotted(call.func) or "").split(".")
+        if len(d) == 2 and d[0] in self.mod_torch and d[1] == "Generator":
+            return self.torch_generator_kind(call)
         args = list(call.args) + [k.value for k in call.keywords]
         if not args or (isinstance(args[0], ast.Constant) and args[0].value is None):
             return "KUnseeded"
@@ -477,6 +520,42 @@ class FileScan:
         return None
 
     def scan(self):
+        if self._scanned is None:
+            self._scanned = "in progress"
+            self._scanned = self.scan_()
+        elif self._scanned == "in progress":
+            raise Unclassified("%s: circular helper imports between modules" % self.rel)
+        return self._scanned
+
+    # ---- helpers imported from other msdm modules (one level) ---------------------------------------
+    def imported_helper(self, call):
+        """(other FileScan, def) for a call  f(..)  where f was imported with `from msdm.x.y import f` and is a def of
+        that module; None when f is not such a name.  Fails closed when the module or the def cannot be found."""
+        f = call.func
+        if not isinstance(f, ast.Name) or f.id not in self.msdm_imports:
+            return None
+        module, name = self.msdm_imports[f.id]
+        repo = self.registry.get("repo")
+        if repo is None:
+            raise Unclassified("%s:%d: `%s` is imported from %s but no repository root is known" % (self.rel, call.lineno, f.id, module))
+        base = os.path.join(*module.split("."))
+        rel = next((r for r in (base + ".py", os.path.join(base, "__init__.py")) if os.path.exists(os.path.join(repo, r))), None)
+        if rel is None:
+            raise Unclassified("%s:%d: module %s of imported helper `%s` not found" % (self.rel, call.lineno, module, f.id))
+        scans = self.registry["scans"]
+        if rel not in scans:
+            with open(os.path.join(repo, rel)) as fh:
+                scans[rel] = FileScan(rel, fh.read(), self.registry)
+            scans[rel].rng_default_callees = self.registry["callees"]
+        other = scans[rel]
+        defs = [d for d in other.module_defs().get(name, []) if other.parents.get(d) is other.tree]
+        if not defs:
+            raise Unclassified("%s:%d: `%s` imported from %s is not a function defined there (re-export?): not resolvable"
+                               % (self.rel, call.lineno, f.id, module))
+        other.scan()
+        return other, defs[0]
+
+    def scan_(self):
         for n in ast.walk(self.tree):
             if isinstance(n, ast.Call):
                 self.scan_call(n)
@@ -578,6 +657,13 @@ class FileScan:
             if last in TORCH_RANDOM or (len(parts) >= 2 and parts[1] == "random"):
                 self.claim(f)
                 self.claimed.add(n)
+                gen = [k.value for k in n.keywords if k.arg == "generator"]
+                if gen and self.is_torch_global_generator(gen[0], n):
+                    return self.emit(n, "KGlobal", src(n)[:110] + "   [generator= torch's GLOBAL default generator]")
+                if gen and not (isinstance(gen[0], ast.Constant) and gen[0].value is None):
+                    if self.is_genexpr(gen[0]) and not self.is_global_module_value(gen[0]):
+                        return self.emit(n, "KPrivate", src(n)[:110] + "   [generator= a private torch.Generator]")
+                    raise Unclassified("%s:%d: `%s`: generator argument `%s` is not a known generator" % (self.rel, n.lineno, src(n)[:80], src(gen[0])))
                 if "forked_seeded" in g:
                     return self.emit(n, "KPrivate", src(n) + "   [inside torch.random.fork_rng(), generator re-seeded from the seed]")
                 return self.emit(n, "KGlobal")
@@ -591,6 +677,12 @@ class FileScan:
         if not isinstance(f, ast.Attribute):
             return None
         recv, meth = f.value, f.attr
+        # (re)seeding a generator-bound receiver:  g.manual_seed(<seed>)
+        if meth == "manual_seed" and self.is_genexpr(recv) and not self.is_global_module_value(recv):
+            self.claimed.add(n)
+            if len(n.args) == 1 and (seedlike(n.args[0]) or isinstance(n.args[0], ast.Constant)):
+                return self.emit(n, "KPrivate")
+            raise Unclassified("%s:%d: `%s`: seed expression not recognised" % (self.rel, n.lineno, src(n)))
         # draws on generator-bound receivers
         if meth in DRAW_METHODS and self.is_genexpr(recv) and not self.is_global_module_value(recv):
             self.claimed.add(n)
@@ -749,6 +841,21 @@ class FileScan:
                 continue
             if any(s["line"] == n.lineno for s in self.sites):
                 continue
+            imp = self.imported_helper(n)
+            if imp is not None:
+                other, d = imp
+                kinds = other.helper_kinds(d)
+                if kinds:
+                    worst = max(kinds, key=self.SEVERITY.index)
+                    args = list(n.args) + [k.value for k in n.keywords]
+                    if "KGlobalIfSeedNone" in kinds and (not args or (isinstance(args[0], ast.Constant) and args[0].value is None)):
+                        worst = "KGlobal"        # the factory's `seed is None` branch is the one taken: global generator
+                    elif args and not (seedlike(args[0]) or isinstance(args[0], ast.Constant) or self.is_genexpr(args[0])):
+                        raise Unclassified("%s:%d: `%s`: argument `%s` of the imported helper is neither a seed nor a generator"
+                                           % (self.rel, n.lineno, src(n)[:80], src(args[0])))
+                    self.emit(n, worst, "%s   [through helper %s.%s: %s]" % (src(n)[:90], other.rel, d.name, ",".join(sorted(kinds))))
+                    self.sites[-1]["kind"] = worst
+                continue
             helpers = self.resolve_helper(n)
             if helpers:
                 # a helper function / method of this module: its own draw sites are in the table (classified through the
@@ -779,15 +886,17 @@ def extract(repo):
     out = []
     scans = {}
     callees = {}
+    registry = {"repo": repo, "scans": scans, "callees": callees}
     for rel in FILES:
         path = os.path.join(repo, rel)
         if not os.path.exists(path):
             raise Unclassified("anchored file missing: %s" % rel)
         with open(path) as f:
             text = f.read()
-        scans[rel] = FileScan(rel, text)
+        scans[rel] = FileScan(rel, text, registry)
         callees.update(scans[rel].global_default_params())
-    for rel, fs in scans.items():
+    for rel in list(FILES):
+        fs = scans[rel]
         fs.rng_default_callees = callees
         for s in fs.scan():
             for comp in components_of(rel, s["scope"]):
